@@ -19,7 +19,8 @@ EXTENDS RunnerObs
 
 CONSTANTS Cfg,      \* the case: same shape as the harness' `expect` record
           MaxFail,  \* max number of failing callbacks per behaviour
-          IdleYields, SerialExclusive   \* "as-is" switches (TRUE = fixed design)
+          IdleYields, SerialExclusive,  \* "as-is" switches (TRUE = fixed design)
+          LogPoints, MaxLogs  \* tracing (C20): callback kinds that emit logs; max logs per behaviour
 
 VARIABLES pPos, pDone,            \* parser cursor / Features.finished
           qS, qC,                 \* Serial / Concurrent queues: Seq of entries
@@ -29,10 +30,11 @@ VARIABLES pPos, pDone,            \* parser cursor / Features.finished
           finQ,                   \* finished-channel
           cntF, cntR,             \* FinishedRulesAndFeatures counters (-1 = absent)
           now, nid, nfail,        \* logical clock, next ScenarioId, failures so far
+          logChan, nlogs,         \* tracing: formatted events not yet forwarded; logs emitted so far
           o                       \* monitor state (RunnerObs)
 
 vars == <<pPos, pDone, qS, qC, epc, slots, batch, run, serialStarted, finQ, cntF, cntR,
-          now, nid, nfail, o>>
+          now, nid, nfail, logChan, nlogs, o>>
 
 Scen == DOMAIN Cfg.scen
 Feats == DOMAIN Cfg.feats
@@ -70,6 +72,7 @@ Init ==
   /\ finQ = <<>>
   /\ cntF = [f \in Feats |-> -1] /\ cntR = [r \in Rules |-> -1]
   /\ now = 0 /\ nid = 1 /\ nfail = 0
+  /\ logChan = <<>> /\ nlogs = 0
   /\ o = ObsInit(Cfg)
 
 ParserMayRun == epc \in {"init", "await", "sleep", "yield"}
@@ -99,14 +102,14 @@ Insert ==
         /\ o' = Feed(o, <<Rec("enqueue", [qs |-> QRec(qS2), qc |-> QRec(qC2)]),
                           Rec("insert", [f |-> f])>>)
   /\ pPos' = pPos + 1
-  /\ UNCHANGED <<pDone, epc, slots, batch, run, serialStarted, finQ, cntF, cntR, now, nfail>>
+  /\ UNCHANGED <<pDone, epc, slots, batch, run, serialStarted, finQ, cntF, cntR, now, nfail, logChan, nlogs>>
 
 PErr ==
   /\ ParserMayRun /\ ~pDone /\ pPos <= Len(Cfg.parser)
   /\ Cfg.parser[pPos].item = "err"
   /\ o' = Feed(o, <<Rec("perr", [item |-> pPos - 1])>>)
   /\ pPos' = IF Cfg.fail_fast THEN Len(Cfg.parser) + 1 ELSE pPos + 1
-  /\ UNCHANGED <<pDone, qS, qC, epc, slots, batch, run, serialStarted, finQ, cntF, cntR, now, nid, nfail>>
+  /\ UNCHANGED <<pDone, qS, qC, epc, slots, batch, run, serialStarted, finQ, cntF, cntR, now, nid, nfail, logChan, nlogs>>
 
 PFin ==
   /\ ParserMayRun /\ ~pDone /\ pPos > Len(Cfg.parser)
@@ -117,7 +120,7 @@ PFin ==
                                  scenarios |-> SumOver(Cfg.feats, fsI, "nscen"),
                                  steps |-> SumOver(Cfg.feats, fsI, "nsteps"),
                                  parser_errors |-> o.nperr])>>)
-  /\ UNCHANGED <<pPos, qS, qC, epc, slots, batch, run, serialStarted, finQ, cntF, cntR, now, nid, nfail>>
+  /\ UNCHANGED <<pPos, qS, qC, epc, slots, batch, run, serialStarted, finQ, cntF, cntR, now, nid, nfail, logChan, nlogs>>
 
 ---------------------------------------------------------------------------
 (* Executor process: execute                                               *)
@@ -127,7 +130,7 @@ ExecStart ==
   /\ epc' = "get"
   /\ o' = Feed(o, <<Rec("hook_silenced", [limit |-> Cfg.limit, fail_fast |-> Cfg.fail_fast]),
                     EvRec([t |-> "Started"])>>)
-  /\ UNCHANGED <<pPos, pDone, qS, qC, slots, batch, run, serialStarted, finQ, cntF, cntR, now, nid, nfail>>
+  /\ UNCHANGED <<pPos, pDone, qS, qC, slots, batch, run, serialStarted, finQ, cntF, cntR, now, nid, nfail, logChan, nlogs>>
 
 ReadyIdx(q) == {i \in DOMAIN q : IsReady(q[i])}
 RECURSIVE FirstN(_, _, _)
@@ -174,14 +177,14 @@ Get ==
                      /\ o' = Feed(o, getRec \o <<Rec("idle", [d |-> "spin"])>>)
            ELSE /\ epc' = "dispatch"
                 /\ o' = Feed(o, getRec)
-  /\ UNCHANGED <<pPos, pDone, slots, run, serialStarted, finQ, cntF, cntR, now, nid, nfail>>
+  /\ UNCHANGED <<pPos, pDone, slots, run, serialStarted, finQ, cntF, cntR, now, nid, nfail, logChan, nlogs>>
 
 \* the yield added to the idle branch / the sleeper thread waking the task
 Resume ==
   /\ \/ epc = "yield"
      \/ epc = "sleep" /\ (ReadyIdx(qS) # {} \/ ReadyIdx(qC) # {} \/ TRUE)
   /\ epc' = "get"
-  /\ UNCHANGED <<pPos, pDone, qS, qC, slots, batch, run, serialStarted, finQ, cntF, cntR, now, nid, nfail, o>>
+  /\ UNCHANGED <<pPos, pDone, qS, qC, slots, batch, run, serialStarted, finQ, cntF, cntR, now, nid, nfail, logChan, nlogs, o>>
 
 NewAttempt(e) == [s |-> e.s, cur |-> e.cur, id |-> e.id, pc |-> "new", i |-> 1, world |-> 0, wctr |-> 0,
                   res |-> "", fail |-> "", ares |-> "", pf |-> <<>>]
@@ -207,7 +210,7 @@ Dispatch ==
         /\ serialStarted' = IF batch = <<>> THEN serialStarted ELSE Cfg.scen[batch[1].s].serial
         /\ o' = Feed(o, fev \o rev \o <<Rec("dispatch", [n |-> Len(batch), slots |-> slots2])>>)
   /\ epc' = "await" /\ batch' = <<>>
-  /\ UNCHANGED <<pPos, pDone, qS, qC, finQ, now, nid, nfail>>
+  /\ UNCHANGED <<pPos, pDone, qS, qC, finQ, now, nid, nfail, logChan, nlogs>>
 
 ---------------------------------------------------------------------------
 (* Attempt processes: run_scenario, one action per stretch between two     *)
@@ -354,13 +357,36 @@ ChoicePc == {"bw_gate", "b_gate", "sw_gate", "s_gate", "a_gate"}
 
 AttemptFailed(a) == a.fail \in {"before", "step"} \/ a.ares = "fail"
 
-Step(id, fails) ==
+\* tracing: the forwarder (polled first by the biased select, draining its channel
+\* before it yields) delivers every queued log before any attempt is polled again
+FlushRecs == [i \in DOMAIN logChan |->
+                ScEv(logChan[i].s, logChan[i].cur, "Log", [lmsg |-> logChan[i].msg])]
+
+\* a callback that logs: one event right after it is entered, one right before it returns
+RECURSIVE WithLogs(_, _)
+WithLogs(recs, on) ==
+  IF recs = <<>> THEN [recs |-> <<>>, logs |-> <<>>]
+  ELSE LET h == Head(recs)
+           t == WithLogs(Tail(recs), on)
+           isCb == on /\ h.kind = "cb" /\ h.point \in LogPoints /\ h.cb \in {"enter", "exit"}
+           msg == IF isCb THEN <<"L", h.s, h.att, h.label, h.cb>> ELSE <<>>
+           lrec == Rec("cb", [cb |-> "log", point |-> h.point, s |-> h.s, att |-> h.att,
+                              label |-> h.label, msg |-> msg, world |-> 0, ctr |-> 0])
+           entry == [s |-> h.s, cur |-> h.att, msg |-> msg]
+       IN IF ~isCb THEN [recs |-> <<h>> \o t.recs, logs |-> t.logs]
+          ELSE IF h.cb = "enter" THEN [recs |-> <<h, lrec>> \o t.recs, logs |-> <<entry>> \o t.logs]
+          ELSE [recs |-> <<lrec, h>> \o t.recs, logs |-> <<entry>> \o t.logs]
+
+Step(id, fails, logs) ==
   /\ epc = "await" /\ id \in InRun
   /\ run[id].pc # "done_y"
   /\ (fails => run[id].pc \in ChoicePc /\ nfail < MaxFail)
+  /\ (logs => nlogs < MaxLogs)
   /\ LET a == run[id]
          s == a.s
-         r == AttStep(s, a, fails)
+         r0 == AttStep(s, a, fails)
+         wl == WithLogs(r0.recs, logs)
+         r == [r0 EXCEPT !.recs = FlushRecs \o wl.recs]
          isFin == a.pc = "fin"
          failed == AttemptFailed(a)
          rt == RetrOf(s, a.cur)
@@ -378,6 +404,9 @@ Step(id, fails) ==
         /\ nid' = IF retry THEN nid + 1 ELSE nid
         /\ finQ' = IF isFin THEN Append(finQ, [s |-> s, id |-> a.id, failed |-> failed, retried |-> retry]) ELSE finQ
         /\ o' = Feed(o, r.recs \o extra)
+        /\ logChan' = wl.logs
+        /\ nlogs' = nlogs + Len(wl.logs)
+        /\ (logs => wl.logs # <<>>)
   /\ nfail' = IF fails THEN nfail + 1 ELSE nfail
   /\ UNCHANGED <<pPos, pDone, epc, slots, batch, serialStarted, cntF, cntR, now>>
 
@@ -408,9 +437,9 @@ Completed(id) ==
      IN /\ run' = [x \in InRun \ {id} |-> run[x]]
         /\ cntF' = d.cf /\ cntR' = d.cr
         /\ slots' = IF d.trip THEN -2 ELSE slots2
-        /\ o' = Feed(o, <<Rec("completed", [slots |-> slots2])>> \o d.recs)
-  /\ finQ' = <<>> /\ epc' = "get"
-  /\ UNCHANGED <<pPos, pDone, qS, qC, batch, serialStarted, now, nid, nfail>>
+        /\ o' = Feed(o, FlushRecs \o <<Rec("completed", [slots |-> slots2])>> \o d.recs)
+  /\ finQ' = <<>> /\ epc' = "get" /\ logChan' = <<>>
+  /\ UNCHANGED <<pPos, pDone, qS, qC, batch, serialStarted, now, nid, nfail, nlogs>>
 
 \* finish_all_rules_and_features, run Finished, restore the panic hook
 Close ==
@@ -426,27 +455,27 @@ Close ==
                                    Rec("end", <<>>),
                                    Rec("post", [sentinel_calls |-> 0, hook_restored |-> TRUE, hung |-> FALSE])>>)
   /\ epc' = "done"
-  /\ UNCHANGED <<pPos, pDone, qS, qC, slots, batch, run, serialStarted, finQ, cntF, cntR, now, nid, nfail>>
+  /\ UNCHANGED <<pPos, pDone, qS, qC, slots, batch, run, serialStarted, finQ, cntF, cntR, now, nid, nfail, logChan, nlogs>>
 
 \* time passes while some retry waits for its delay
 Tick ==
   /\ (\E i \in DOMAIN qS : ~IsReady(qS[i])) \/ (\E j \in DOMAIN qC : ~IsReady(qC[j]))
   /\ now' = now + 1
-  /\ UNCHANGED <<pPos, pDone, qS, qC, epc, slots, batch, run, serialStarted, finQ, cntF, cntR, nid, nfail, o>>
+  /\ UNCHANGED <<pPos, pDone, qS, qC, epc, slots, batch, run, serialStarted, finQ, cntF, cntR, nid, nfail, logChan, nlogs, o>>
 
 Done == epc = "done" /\ UNCHANGED vars
 
 Next ==
   \/ Insert \/ PErr \/ PFin
   \/ ExecStart \/ Get \/ Resume \/ Dispatch \/ Close
-  \/ \E id \in InRun : \E fails \in BOOLEAN : Step(id, fails)
+  \/ \E id \in InRun : \E fails \in BOOLEAN : \E logs \in BOOLEAN : Step(id, fails, logs)
   \/ \E id \in InRun : Completed(id)
   \/ Tick
   \/ Done
 
 Fairness ==
   /\ WF_vars(ExecStart) /\ WF_vars(Get) /\ WF_vars(Resume) /\ WF_vars(Dispatch) /\ WF_vars(Close)
-  /\ \A id \in 1..MaxId : WF_vars(Step(id, FALSE) \/ Step(id, TRUE)) /\ WF_vars(Completed(id))
+  /\ \A id \in 1..MaxId : WF_vars(Step(id, FALSE, FALSE) \/ Step(id, TRUE, FALSE)) /\ WF_vars(Completed(id))
   /\ WF_vars(Tick)
   /\ SF_vars(Insert) /\ SF_vars(PErr) /\ SF_vars(PFin)
 
